@@ -231,7 +231,7 @@ def _constv(F, e):
 
 def run(chk, P):
     r03_2(chk, P)
-    chk.floor('R03.2', 2)
+    chk.floor('R03.2', 1)
     r03_5(chk, P)
     chk.floor('R03.5', 5)
     r03_3(chk, P)
@@ -252,7 +252,7 @@ def run(chk, P):
         def rule(self, rid, text):
             pass
     c12.r12_3(Proxy(chk), P)
-    chk.floor('R03.4', 5)
+    chk.floor('R03.4', 3)
     import typestate
     typestate.c03(chk, P)
     import k4rules
